@@ -225,12 +225,14 @@ Definition normalize_log (st : settings) (ce : cenv) (u : uformula) : outcome (l
 Definition float_overflow (q : Q) : bool :=
   Qle_bool (inject_Z (2 ^ 1024 - 2 ^ 970)) q || Qle_bool q (inject_Z (- (2 ^ 1024 - 2 ^ 970))).
 
-(* DenseTimeInterpreter.time_unit_transformer before the final float(): the bound in default units, as the
-   (reduced) Fraction the code holds; never rejected for being off a grid *)
+(* DenseTimeInterpreter.time_unit_transformer before the final int() / float(): the bound in default units, as the
+   (reduced) Fraction the code holds; a whole number of default units stays a Python int (no overflow), anything
+   else becomes a float (OverflowError -> RTAMTException); never rejected for being off a grid *)
+Definition dense_overflow (q : Q) : bool := negb (is_int q) && float_overflow q.
 Definition to_dense (du : tunit) (i : interval) : outcome (Q * Q) :=
   let b := Qred (fst (to_default du i)) in
   let e := Qred (snd (to_default du i)) in
-  if float_overflow b then Rtamt else if float_overflow e then Rtamt else Ok (b, e).
+  if dense_overflow b then Rtamt else if dense_overflow e then Rtamt else Ok (b, e).
 
 Definition normalize_dense (du : tunit) (ce : cenv) (u : uformula) : outcome (bformula (Q * Q)) :=
   rbind (parse_bounds du ce u) (bmapM (to_dense du)).
